@@ -123,16 +123,24 @@ fn main() {
     let mut bump = |c: &str, classes: &mut HashMap<String, u64>| *classes.entry(c.to_string()).or_default() += 1;
     for p in spec["pairs"].as_array().unwrap() {
         let id = p["id"].as_u64().unwrap();
-        let Some(f) = pair_fns(id) else {
-            bump("pair-not-built", &mut classes);
-            continue;
-        };
         let ysrc = std::fs::read_to_string(format!("{here}/gen/g{id}.y")).unwrap();
         let lsrc = std::fs::read_to_string(format!("{here}/gen/g{id}.l")).unwrap();
         let rt = match p["settings"]["storaget"].as_str() {
             Some("u16") => w16::build_pair(p, &ysrc, &lsrc),
             Some("u8") => w8::build_pair(p, &ysrc, &lsrc),
             _ => w32::build_pair(p, &ysrc, &lsrc),
+        };
+        let Some(f) = pair_fns(id) else {
+            bump("pair-not-built", &mut classes);
+            // the builders refused (or panicked on) sources from which the run-time lexer and
+            // parser can be built: the pairs are generated valid, conflicts are allowed and
+            // warnings are not errors, so there is nothing the builders may object to
+            if rt.is_ok() {
+                let report: Value = serde_json::from_str(&std::fs::read_to_string(format!("{here}/gen/build_report.json")).unwrap_or("[]".into())).unwrap_or(json!([]));
+                let why = report.as_array().and_then(|a| a.iter().find(|b| b["id"].as_u64() == Some(id) && b["lexer_only"] != json!(true))).map(|b| b["error"].clone());
+                mismatches.push(json!({"id": id, "what": "compile-time builders refuse (or panic on) a pair the run-time construction accepts", "detail": why}));
+            }
+            continue;
         };
         let rt = match rt {
             Ok(rt) => rt,
